@@ -319,35 +319,53 @@ def interferometer_cmds(rng, N, kind):
 
 
 def x_general_program(rng, N):
-    """squeezers (any multiplicity, order, phases, daggers) + interferometer + measurement, plus malformed variants"""
+    """squeezers (any multiplicity, order, phases, daggers) + interferometer + measurement.
+    Either a fully admissible program (55%), or an admissible one with exactly ONE defect, so that each
+    rejection path of the compilers is reached on an otherwise valid input."""
+    defect = None
+    if rng.random() < 0.45:
+        defect = rng.choice(["meas:partial", "meas:homodyne", "bad:pre-op", "bad:s2-pair", "bad:sgate", "bad:dgate", "bad:odd",
+                             "U:mismatch", "U:mixing", "U:single-half", "phase-differs", "bad:post-op"])
     tags = []
     sq = []
     mult = []
+    dup_budget = 1 if defect else 3
     for i in range(N):
         m = rng.choice([0, 1, 1, 1, 1, 2, 2, 3])
+        if m >= 2:
+            if dup_budget <= 0:
+                m = 1
+            dup_budget -= 1
         mult.append(m)
         phi = 0.0 if rng.random() < 0.85 else rng.choice([0.3, PI / 2])
         for _ in range(m):
             r = rng.choice([0.0, 0.3, 1.0, round(rng.uniform(0, 1.0), 3), round(rng.uniform(-0.5, 1.0), 3)])
-            p = phi if rng.random() < 0.93 else phi + 0.2
-            sq.append(["S2gate", [r, p], [i, i + N], rng.random() < 0.06])
+            sq.append(["S2gate", [r, phi], [i, i + N], (not defect) and rng.random() < 0.06])
+    if defect == "phase-differs":
+        i = rng.randrange(N)
+        sq.append(["S2gate", [0.3, 0.0], [i, i + N], False])
+        sq.append(["S2gate", [0.2, 0.25], [i, i + N], False])
     rng.shuffle(sq)
     if any(m == 0 for m in mult):
         tags.append("zero-sq")
     ndup = sum(1 for m in mult if m >= 2)
     if ndup:
         tags.append("dup%d" % min(ndup, 2))
-    if any(c[3] for c in sq):
-        tags.append("dagger")
-    ik = rng.choice(["none", "interferometer", "interferometer", "gates", "gates", "mismatch", "mixing", "single-half"])
-    if N < 2 and ik in ("mismatch",):
-        ik = "gates"
+    if defect and defect.startswith("U:") and (N >= 2 or defect == "U:mixing"):
+        ik = defect[2:]
+    else:
+        if defect and defect.startswith("U:"):
+            defect = "meas:partial"
+        ik = rng.choice(["none", "interferometer", "interferometer", "gates", "gates"])
     inter = interferometer_cmds(rng, N, ik)
+    if defect:
+        for c in inter:
+            c[3] = False
     tags.append("U:" + ik)
-    if any(c[3] for c in inter):
+    if any(c[3] for c in sq + inter):
         tags.append("dagger")
     n = 2 * N
-    mk = rng.choice(["all", "all", "all", "split", "partial", "homodyne"])
+    mk = defect[5:] if defect and defect.startswith("meas:") else rng.choice(["all", "all", "split"])
     if mk == "all":
         meas = [["MeasureFock", [], list(range(n)), False]]
     elif mk == "split":
@@ -362,22 +380,20 @@ def x_general_program(rng, N):
     if mk != "all":
         tags.append("meas:" + mk)
     cmds = sq + inter + meas
-    r = rng.random()
-    if r < 0.05:
-        tags.append("bad:pre-op")
+    if defect == "bad:pre-op":
         cmds = [["Rgate", [0.3], [0], False]] + cmds
-    elif r < 0.1 and N >= 2:
-        tags.append("bad:s2-pair")
+    elif defect == "bad:s2-pair" and N >= 2:
         cmds = [["S2gate", [0.4, 0.0], [0, 1], False]] + cmds
-    elif r < 0.14:
-        tags.append("bad:sgate")
+    elif defect == "bad:sgate":
         cmds = [["Sgate", [0.4, 0.0], [0], False]] + cmds
-    elif r < 0.17:
-        tags.append("bad:dgate")
+    elif defect == "bad:dgate":
         cmds = [["Dgate", [0.4, 0.0], [0], False]] + cmds
-    elif r < 0.2:
-        tags.append("bad:odd")
+    elif defect == "bad:odd":
         n = n + 1
+    elif defect == "bad:post-op":
+        cmds = cmds + [["Rgate", [0.3], [0], False]]
+    if defect:
+        tags.append(defect if not defect.startswith("U:") else "defect")
     return tags, {"n": n, "cmds": cmds}
 
 
@@ -934,17 +950,9 @@ def check_tdm_case(ctx, case):
 
 def search(ctx):
     rng = ctx.rng
-    # corpus first
-    import glob, json, os
-    for path in sorted(glob.glob(os.path.join(coq.VERIF, "corpus", "C12-*.json"))):
-        try:
-            d = json.load(open(path))["data"]
-            run_data(ctx, d)
-            ctx.hist["corpus"] = ctx.hist.get("corpus", 0) + 1
-        except Exception as e:
-            ctx.obligation("corpus:" + os.path.basename(path), False, repr(e))
+    # (the corpus is replayed by the framework through replay() before correspondence and search)
     # X series
-    n_x = ctx.budget(110, 900)
+    n_x = ctx.budget(260, 1200)
     sizes = [1, 2, 2, 3, 3, 4, 4] + ([5] if not ctx.quick else [])
     for it in range(n_x):
         N = rng.choice(sizes)
@@ -964,7 +972,7 @@ def search(ctx):
         ctx.case({"N": N, "compiler": compiler, "tags": tags, "device": None if dev_spec is None else {k: dev_spec[k] for k in ("modes", "compiler")}, "outcome": out,
                   "cmds": [[c[0], c[2], c[3]] for c in spec["cmds"]]}, nontrivial=nontriv, bucket="x:%s:%s" % (compiler, out))
     # borealis
-    n_b = ctx.budget(40, 400)
+    n_b = ctx.budget(60, 400)
     for it in range(n_b):
         case = gen_borealis_case(rng, T=None if ctx.quick else rng.choice([4, 8, 12, 20, 30, 45]))
         out, comp = check_borealis_case(ctx, case, 2)
@@ -1445,22 +1453,45 @@ def corr_borealis(ctx, inputs, tag):
                 ctx.disagreement("corr:borealis-insert", "model _user_offsets %r vs implementation %r" % (m_uo, uo), data)
         elif kind == "CircuitError" and "incompatible topologies" in str(res) and m_ok:
             ctx.disagreement("corr:borealis-insert", "implementation rejects the topology in the insertion loop, model accepts", data)
-        if kind != "ok":
+        if kind == "ok":
+            prog, compiled, src_cmds, spec = res
+            ids = {id(c): k for k, c in enumerate(src_cmds)}
+            impl_tags = [ids.get(id(c), 100 + k) for k, c in enumerate(compiled.circuit)]
+            if m_ok and [t if t < 100 else 100 + k for k, t in enumerate(m_tags)] != impl_tags:
+                ctx.disagreement("corr:borealis-insert", "model sequence %r vs implementation %r" % (m_tags, impl_tags), data)
+        # phases: Borealis.update_params called directly (so that a later range validation cannot hide a difference)
+        try:
+            new_params = impl_update_params(case)
+        except Exception as e:
+            ctx.counterexample("borealis:update_params:" + type(e).__name__, "Borealis.update_params raised %s: %s" % (type(e).__name__, e), data)
             continue
-        prog, compiled, src_cmds, spec = res
-        ids = {id(c): k for k, c in enumerate(src_cmds)}
-        impl_tags = [ids.get(id(c), 100 + k) for k, c in enumerate(compiled.circuit)]
-        if m_ok and [t if t < 100 else 100 + k for k, t in enumerate(m_tags)] != impl_tags:
-            ctx.disagreement("corr:borealis-insert", "model sequence %r vs implementation %r" % (m_tags, impl_tags), data)
-        # phases
         for loop in range(3):
-            new = [float(x) for x in compiled.tdm_params[1 + 2 * loop]]
+            new = [float(x) for x in new_params[loop]]
             mod = [float(Fraction(int(a), int(b))) for a, b in mv[loop]]
+            done = False
             for j, (a, b) in enumerate(zip(new, mod)):
                 d = abs(a - b)
                 if d > 1e-9 and not (abs(d - PI) < 1e-9 and near_boundary(case, loop, j)) and not (abs(d - 2 * PI) < 1e-9 and near_boundary(case, loop, j)):
-                    ctx.disagreement("corr:borealis-phases", "loop %d bin %d: model %r vs implementation %r" % (loop, j, b, a), data)
+                    # property predicate on the implementation: inside the modulator range and congruent modulo pi
+                    if a < -PI / 2 - 1e-9 or a > PI / 2 + 1e-9:
+                        ctx.counterexample("borealis:update_params:out-of-range", "loop %d bin %d: Borealis.update_params returns %r, outside [-pi/2, pi/2]" % (loop, j, a), data)
+                    else:
+                        ctx.disagreement("corr:borealis-phases", "loop %d bin %d: model %r vs implementation %r" % (loop, j, b, a), data)
+                    done = True
                     break
+            if done:
+                break
+
+
+def impl_update_params(case):
+    """Borealis.update_params on the user's program, with _user_offsets as the insertion loop would set them"""
+    reset_compilers()
+    spec, cert = borealis_device_spec(case["loop_phases"])
+    prog = borealis_program(dict(case, mut=None))
+    comp = compiler_db["borealis"]()
+    comp._user_offsets = [o is not None for o in case["offsets"]]
+    comp.update_params(prog, Device(spec, cert))
+    return [list(prog.tdm_params[1 + 2 * l]) for l in range(3)]
 
 
 def near_boundary(case, loop, j):
